@@ -1,4 +1,5 @@
 from collections import OrderedDict
+from collections.abc import Mapping
 
 from .base import _cls_init
 from .properties import EnumProperty
@@ -20,6 +21,24 @@ def _get_properties_dict(properties):
         ) from e
 
 
+def _add_own_extension(obj, kwargs, version):
+    """
+    Add the extension which defines a custom type to the "extensions" the
+    object is created with.  This happens before the properties are
+    processed, so that the extension is validated, ordered, and taken into
+    account (e.g. for deterministic ids) like any other property value.  The
+    caller's dictionary is not modified.
+    """
+    ext = getattr(obj, 'with_extension', None)
+    if ext and version != '2.0':
+        extensions = kwargs.get('extensions')
+        if extensions is None or isinstance(extensions, Mapping):
+            extensions = dict(extensions or {})
+            if ext not in extensions:
+                extensions[ext] = class_for_type(ext, version, "extensions")()
+            kwargs['extensions'] = extensions
+
+
 def _custom_object_builder(cls, type, properties, version, base_class):
     prop_dict = _get_properties_dict(properties)
 
@@ -29,13 +48,9 @@ def _custom_object_builder(cls, type, properties, version, base_class):
         _properties = prop_dict
 
         def __init__(self, **kwargs):
+            _add_own_extension(self, kwargs, version)
             base_class.__init__(self, **kwargs)
             _cls_init(cls, self, kwargs)
-            ext = getattr(self, 'with_extension', None)
-            if ext and version != '2.0':
-                if 'extensions' not in self._inner:
-                    self._inner['extensions'] = {}
-                self._inner['extensions'][ext] = class_for_type(ext, version, "extensions")()
 
     _CustomObject.__name__ = cls.__name__
 
@@ -75,13 +90,9 @@ def _custom_observable_builder(cls, type, properties, version, base_class, id_co
             _id_contributing_properties = id_contrib_props
 
         def __init__(self, **kwargs):
+            _add_own_extension(self, kwargs, version)
             base_class.__init__(self, **kwargs)
             _cls_init(cls, self, kwargs)
-            ext = getattr(self, 'with_extension', None)
-            if ext and version != '2.0':
-                if 'extensions' not in self._inner:
-                    self._inner['extensions'] = {}
-                self._inner['extensions'][ext] = class_for_type(ext, version, "extensions")()
 
     _CustomObservable.__name__ = cls.__name__
 
